@@ -15,8 +15,8 @@ import (
 // C12 — $ref targets are located as RFC 3986 reference resolution prescribes.
 
 var (
-	c12Symbols = []string{"a", "b.json", ".", "..", "c%20d", "é", "UP", "p+q", "~t", "x.y.z"}
-	c12Files   = []string{"b.json", "c%20d.json", "é.json", "UP.JSON", "x.y.z"}
+	c12Symbols = []string{"a", "b.json", ".", "..", "c%20d", "é", "UP", "p+q", "~t", "m%2541n"}
+	c12Files   = []string{"b.json", "c%20d.json", "é.json", "UP.JSON", "r%2520s.v2.json"}
 	c12BasesQ  = []string{"file:///w/a/root.json", "file:///root.json", "file:///w/a/b/c/root.json", "http://h.example/d/e.json",
 		"http://h.example:8080/x/y/z.json", "https://s.example/spec.json", "https://s.example/a/b/spec.json"}
 	c12BasesT = append(append([]string{}, c12BasesQ...), "file:///w/sp%20ace/root.json", "file:///w/é/root.json", "http://h.example/a/../b/e.json",
@@ -104,7 +104,7 @@ func c12RandomCount(env *core.Env) int {
 }
 
 func c12NumCases(env *core.Env) int {
-	return (c12Total(env)+c12Batch-1)/c12Batch + c12RandomCount(env) + 1
+	return (c12Total(env)+c12Batch-1)/c12Batch + c12RandomCount(env) + 2
 }
 
 func c12Check(res *core.CaseResult, base, ref string) {
@@ -208,6 +208,19 @@ func c12Run(env *core.Env, idx int) core.CaseResult {
 			}
 		}
 		res.Count("part.fragment-only", len(pairs))
+	case idx == nEnum+1:
+		// references spelled with the trailing segments of the base itself: they still resolve against the base's directory
+		for _, b := range c12BasesT {
+			bu, _ := url.Parse(b)
+			segs := strings.Split(strings.TrimPrefix(bu.EscapedPath(), "/"), "/")
+			for k := 1; k <= len(segs); k++ {
+				tail := strings.Join(segs[len(segs)-k:], "/")
+				for _, f := range c12Frags {
+					pairs = append(pairs, [2]string{b, tail + f}, [2]string{b, "./" + tail + f})
+				}
+			}
+		}
+		res.Count("part.tail-of-base", len(pairs))
 	default:
 		rng := core.Rng(env.Seed, "C12", idx)
 		bases := c12BasesT
@@ -249,13 +262,13 @@ func init() {
 		ID:    "C12",
 		Level: "exploration",
 		Rule: "every reference of <= 3 (thorough: 4) path segments over a 10-symbol alphabet (plain, dotted, '.', '..', percent-escaped, non-ASCII, upper-case, '+', '~'), last segment a file name, written relative, root-relative or absolute (2 hosts), " +
-			"with 3 fragment shapes, against 7 (thorough: 14) file/http/https bases at depth 0-3 - enumerated completely - plus fragment-only/empty references and seeded random longer ones; case = batch of 64 pairs. " +
+			"with 3 fragment shapes, against 7 (thorough: 14) file/http/https bases at depth 0-3 - enumerated completely - plus fragment-only/empty references, references spelled with the trailing segments of the base, and seeded random longer ones; case = batch of 64 pairs. " +
 			"monitor: the recording loader of ResolveRefWithBase(nil, ref, {RelativeBase: base}) is asked exactly once, for net/url's RFC 3986 resolution of ref against base without fragment; normalizeURI (hook H5) agrees, fragment carried over. " +
 			"non-trivial = batch has a dot segment, escape or non-ASCII reference",
 		NumCases: c12NumCases,
 		Run:      c12Run,
 		Floors: func(env *core.Env) []string {
-			return []string{"part.enumerated", "part.fragment-only", "part.random", "kind.relative", "kind.root-relative", "kind.absolute", "kind.fragment-only-or-empty", "nontrivial"}
+			return []string{"part.enumerated", "part.fragment-only", "part.tail-of-base", "part.random", "kind.relative", "kind.root-relative", "kind.absolute", "kind.fragment-only-or-empty", "nontrivial"}
 		},
 		Exhaustive: func(env *core.Env) bool { return true },
 		Assumptions: []string{"domain: references made of a file path whose last segment is a file name, optional fragment; no query, no network-path (//host) reference, no %2F, no trailing '/', '.' or '..'",
